@@ -344,6 +344,9 @@ type attCase struct {
 	Chunks  []string `json:"chunks"`
 	Reset   bool     `json:"reset"`
 	Default bool     `json:"default_file_handler"`
+	// Coalesce: all chunks arrive in one read; FailFrom: the FailFrom-th reply write and every later one fail (0: never)
+	Coalesce bool `json:"coalesce,omitempty"`
+	FailFrom int  `json:"fail_from,omitempty"`
 }
 
 type nopFileEvent struct{ n int }
@@ -353,8 +356,17 @@ func (n *nopFileEvent) OnEvent(p *attachment.PackageProgress) { n.n++ }
 // attRun plays one scripted session against attachment's connection.run.
 func attRun(c attCase) (panicked string, replies [][]byte) {
 	peer := vnet.NewConn()
-	for _, ch := range c.Chunks {
-		peer.Send(unhx(ch))
+	peer.C.FailFrom = c.FailFrom
+	if c.Coalesce {
+		var all []byte
+		for _, ch := range c.Chunks {
+			all = append(all, unhx(ch)...)
+		}
+		peer.Send(all)
+	} else {
+		for _, ch := range c.Chunks {
+			peer.Send(unhx(ch))
+		}
 	}
 	if c.Reset {
 		peer.Reset()
@@ -387,6 +399,30 @@ func attEval(c attCase) (sig, diag string) {
 	return "", ""
 }
 
+// attSessionFiles: one announcement of several files, then each file's 0x1211, chunks and 0x1212.
+func attSessionFiles(d consts.ActiveSafetyType, names []string, data []byte, chunk int) []string {
+	phone := "13800138000"
+	var files []ref.AttFile
+	for _, n := range names {
+		files = append(files, ref.AttFile{Name: n, Size: uint32(len(data))})
+	}
+	out := []string{hx2(ref.Encode(ref.TermHeader(0x1210, false, phone, 1), ref.Body1210(int(d), "alarm-1", files)))}
+	// the information frames of all files first (several control frames in a row), then the data, then the completions
+	for i, n := range names {
+		out = append(out, hx2(ref.Encode(ref.TermHeader(0x1211, false, phone, uint16(2+i)), ref.Body1211(n, 0, uint32(len(data))))))
+	}
+	for _, n := range names {
+		for off := 0; off < len(data); off += chunk {
+			end := min(off+chunk, len(data))
+			out = append(out, hx2(ref.StreamChunk(int(d), n, uint32(off), data[off:end])))
+		}
+	}
+	for i, n := range names {
+		out = append(out, hx2(ref.Encode(ref.TermHeader(0x1212, false, phone, uint16(20+i)), ref.Body1211(n, 0, uint32(len(data))))))
+	}
+	return out
+}
+
 // attSession builds the chunks of a complete upload session of one file.
 func attSession(d consts.ActiveSafetyType, name string, data []byte, chunk int) []string {
 	phone := "13800138000"
@@ -405,7 +441,7 @@ func init() {
 	vc.Register(&vc.Check{
 		ID: "C10", Level: "model_checking", SingleProc: true,
 		Rule: "JT808 server: a well-behaved session V (register, auth, heartbeat, location, each awaited), a hostile client H and a third client opened after H, on the real server with README-pattern handlers that Parse and render every body. H plays every single piece of a ~900-piece menu (valid frames with lying package fields, every supported terminal and platform ID x both versions with empty / 1-byte / truncated / corrupted / extended bodies, the boundary bodies C03 found, half frames, bare delimiters, 2 KiB without delimiter, unknown IDs) with close or reset before, between and after its chunks, under ALL schedules with <=1 deviation (thorough: then again with 2 deviations and close after the piece, as far as the time cap allows - counter pieces_completed_at_bound_2), every ordered pair from a 40-piece sub-menu under the run-to-block schedule (thorough: with 1 deviation), every ordered pair of sub-package frames of one message ID whose total/number fields disagree (totals and numbers from {1,2,5,65535} / {1,2,4,65535}) through the server, and EVERY sequence of 1..2 (one ID: 1..3; thorough: 1..3 for both) sub-package frames over 2 IDs x totals {0,1,2,3,5,65535} x numbers {0..6,65535} on the real reassembler, " +
-			"plus H presenting V's key. Attachment server: connection.run on scripted connections: every prefix (EOF and reset at every chunk boundary, including connect-and-close) of well-formed sessions of all five dialects, control frames and chunk headers with adversarial names / offsets / lengths, default and custom file handler. Oracle: no panic anywhere, V receives exactly its reference replies, the later client is served. Non-trivial = H sends at least one chunk",
+			"plus H presenting V's key. Attachment server: connection.run on scripted connections: every prefix (EOF and reset at every chunk boundary, including connect-and-close) of well-formed sessions of all five dialects, control frames and chunk headers with adversarial names / offsets / lengths, sessions of 1 and 4 files whose k-th reply write (k=1..4) and all later ones fail, frames one per read and all in one read, default and custom file handler. Oracle: no panic anywhere, V receives exactly its reference replies, the later client is served. Non-trivial = H sends at least one chunk",
 		Assumptions: []string{"memory exhaustion by an endless delimiter-free stream is a resource bound, not a reachable-state property, and is not claimed"},
 		Run:         c10Run,
 		Drivers: map[string]func(json.RawMessage) string{
@@ -667,6 +703,17 @@ func c10Attachment(ctx *vc.Ctx, rep *vc.Report, idx *int64) {
 					h := good[cut]
 					half := h[:len(h)/4*2]
 					try(attCase{Dialect: di, Chunks: append(append([]string(nil), good[:cut]...), half), Reset: reset, Default: def})
+				}
+			}
+			// the peer stops reading: the k-th reply write and every later one fail, frames one per read and all in one read
+			// (several control frames buffered behind the failing write), sessions with 1 and with 4 files
+			multi := attSessionFiles(c03Dialects[di], []string{"a.jpg", "b.bin", "c.jpg", "d.bin"}, []byte("0123456789"), 5)
+			for _, sess := range [][]string{good, multi} {
+				for k := 1; k <= 4; k++ {
+					for _, co := range []bool{false, true} {
+						try(attCase{Dialect: di, Chunks: sess, Default: def, Coalesce: co, FailFrom: k})
+						try(attCase{Dialect: di, Chunks: sess[:len(sess)/2+1], Default: def, Coalesce: co, FailFrom: k})
+					}
 				}
 			}
 			// adversarial control frames and chunk headers after a valid announcement
